@@ -64,6 +64,8 @@ POOL = [
     "name = \"NULL\" other = \"true\" third = 'END' fourth = \"Group\"\n",
     "note = \"pre- and post-launch 2- or 3-axis - x- xxxxxxxxxxxx- end- of the long-word- list -- beta\"\n"
     "list = (\"- first bullet of a long description that wraps\", \"xxxxxxxxxxxxxxxxxxxxxxxxxxxxxxxxxxxxxxxxxxxxxxxxxx- yyyyyyyyyyyyyyyyyyyyyyyyyyyyyyyyyyyyyyyy\")\n",
+    "RADIANCE = (1.5 <W / m**2 / sr>, 2.25 <W / m**2 / sr>, 3.125 <W / m**2 / sr>, 4.0 <W / m**2 / sr>, 5.5 <W / m**2 / sr>, 6.75 <W / m**2 / sr>, 7.0 <W / m**2 / sr>, 8.5 <W / m**2 / sr>)\n"
+    "SCALE = (10 <m / pixel>, 20 <m / pixel>, 30 <m / pixel>, 40 <m / pixel>, 50 <m / pixel>, 60 <m / pixel>)\n",
     "long = (\"alpha beta gamma delta epsilon zeta eta theta iota kappa\", \"lambda mu nu xi omicron pi rho sigma tau upsilon\", third-word)\n",
 ]
 
